@@ -40,14 +40,17 @@ def main():
     if not targets:
         return 0
     # fixed work per tier: runs per job x jobs
-    runs, jobs = (30_000, 8) if tier == "quick" else (1_500_000, 16)
-    if os.environ.get("HV_FUZZ_RUNS"):
-        runs = int(os.environ["HV_FUZZ_RUNS"])
+    jobs = 8 if tier == "quick" else 16
     summary = {"property_id": pid, "tier": tier, "seed": seed, "coverage": {"evaluations": 0, "distinct_nontrivial": 0, "labels": {}, "samples": [], "rule": ""}, "assumptions": [], "violations": 0, "wall_s": 0.0, "targets": {}}
     t_start = time.time()
     code = 0
     for t in targets:
         name = t["target"]
+        # fixed work: runs per job (per target: the slow, generator-keyed targets get fewer); the wall-clock cap only guards
+        # against an overloaded machine and ends the campaign early without any verdict
+        runs = 20_000 if tier == "quick" else int(t.get("runs_thorough", 200_000))
+        if os.environ.get("HV_FUZZ_RUNS"):
+            runs = int(os.environ["HV_FUZZ_RUNS"])
         flags = "--cfg humphrey_verif --cfg humphrey_verif_shim"
         rc, log = sh(f'RUSTFLAGS="{flags}" cargo +nightly fuzz build --fuzz-dir {VERIF}/fuzz --target-dir {TDIR} {name}', cwd=VERIF)
         if rc != 0:
@@ -68,7 +71,7 @@ def main():
         os.makedirs(f"{VERIF}/replay", exist_ok=True)
         before = set(glob.glob(prefix + "*"))
         cmd = (f"{BIN}/{name} {work}/corpus -runs={runs} -max_len={t['max_len']} -len_control=0 -seed={seed} -jobs={jobs} -workers={jobs} "
-               f"-artifact_prefix={prefix} -print_final_stats=1 -rss_limit_mb=4096 -malloc_limit_mb=2048 -timeout=25 -reload=1")
+               f"-artifact_prefix={prefix} -print_final_stats=1 -rss_limit_mb=4096 -malloc_limit_mb=2048 -timeout=25 -reload=1 -max_total_time=1200")
         t0 = time.time()
         rc, log = sh(cmd, cwd=work, env={"HV_FUZZ_STATS_DIR": f"{work}/stats", "ASAN_OPTIONS": "detect_leaks=0:allocator_may_return_null=1"})
         wall = time.time() - t0
